@@ -269,7 +269,7 @@ func (x *c11Ctx) decrypt(ct *rlwe.Ciphertext) []int64 {
 }
 
 // keysFor builds a logging key set with keys for exactly galEls.
-// Without an auxiliary modulus P the plain (non-hoisted) operations get keys with a base-2^16
+// Without an auxiliary modulus P the plain (non-hoisted) operations get keys with a base-2^10
 // digit decomposition (otherwise the key-switch noise swamps the message); the hoisted
 // operations do not support that decomposition, so for them only the request trace is tied.
 func (x *c11Ctx) keysFor(galEls []uint64, plain bool) (c11LogKeys, *[]uint64, *[]uint64) {
@@ -283,7 +283,7 @@ func (x *c11Ctx) keysFor(galEls []uint64, plain bool) (c11LogKeys, *[]uint64, *[
 		k, ok := cache[g]
 		if !ok {
 			if pw2 {
-				b := 16
+				b := 10
 				k = x.kgen.GenGaloisKeyNew(g, x.sk, rlwe.EvaluationKeyParameters{BaseTwoDecomposition: &b})
 			} else {
 				k = x.kgen.GenGaloisKeyNew(g, x.sk)
@@ -836,6 +836,87 @@ func c11OneCtx(c *Ctx, x *c11Ctx) {
 				return ev.PartialTracesSum(ct, b, n, out)
 			})
 		c.Count("degenerate-args")
+	}
+
+	// arguments the code accepts without an error although no documented sum exists / is computed
+	type bad struct {
+		op   string
+		b, n int
+		key  string
+		note string
+	}
+	for _, d := range []bad{
+		{"pts", 3, -2, "C11-nonpositive-count", "PartialTracesSum accepts n<0 (returns nil, opOut left untouched)"},
+		{"innerfunction", 2, 0, "C11-nonpositive-count", "InnerFunction accepts n=0 (returns nil, opOut left untouched)"},
+		{"innerfunction", 2, -3, "C11-nonpositive-count", "InnerFunction accepts n<0 (returns nil, opOut left untouched)"},
+		{"innerfunction", 0, 3, "C11-innerfunction-batch0", "InnerFunction accepts batchSize=0 and returns ctIn instead of 3*ctIn"},
+		{"innerfunction", 0, 4, "C11-innerfunction-batch0", "InnerFunction accepts batchSize=0 and returns ctIn instead of 4*ctIn"},
+	} {
+		d := d
+		v := x.randVec(c, 1)
+		var want []int64
+		if d.n > 0 {
+			want = x.refSum(v, d.b, d.n)
+		}
+		args := fmt.Sprintf("%s %d %d", base, d.b, d.n)
+		evk, reqs, _ := x.keysFor(rlwe.GaloisElementsForInnerSum(x.rp, d.b, d.n), d.op != "pts")
+		if !x.hasP && d.op == "pts" {
+			continue
+		}
+		ev, add := x.rlweEval(evk)
+		out := x.newCt()
+		ct := x.encrypt(v)
+		status := c11TryErr(func() error {
+			if d.op == "pts" {
+				return ev.PartialTracesSum(ct, d.b, d.n, out)
+			}
+			return ev.InnerFunction(ct, d.b, d.n, add, out)
+		})
+		det := ""
+		if status == "" {
+			got := x.decrypt(out)
+			c.Emit(fmt.Sprintf("%s %s %s", d.op, args, c11I64Vec(v)), Vec(*reqs)+" "+c11I64Vec(got))
+			if want == nil || !c11Eq(got, want) {
+				det = d.note
+			}
+		} else {
+			c.Emit(fmt.Sprintf("%s %s %s", d.op, args, c11I64Vec(v)), status)
+		}
+		c.Probe("rejects_or_sums", fmt.Sprintf("%s %s %s", x.tag(), d.op, args), d.key, det)
+		c.Count("degenerate-args")
+	}
+	// int overflow of k*offset: the zero test `k != 0` is taken on the wrapped product
+	if x.hasP {
+		b, n := 1<<62, 5
+		v := x.randVec(c, 1)
+		args := fmt.Sprintf("%s %d %d", base, b, n)
+		evk, reqs, missing := x.keysFor(rlwe.GaloisElementsForInnerSum(x.rp, b, n), false)
+		var fresh *rlwe.Evaluator // fresh buffers: accQP is all zero, so the stale-buffer read is deterministic
+		if x.name == "bgv" {
+			fresh = bgv.NewEvaluator(x.bgvP, &evk).Evaluator
+		} else {
+			fresh = ckks.NewEvaluator(x.ckksP, &evk).Evaluator
+		}
+		out := x.newCt()
+		ct := x.encrypt(v)
+		status := c11TryErr(func() error { return fresh.PartialTracesSum(ct, b, n, out) })
+		det := ""
+		if len(*missing) > 0 {
+			det = "missing=" + Vec(*missing)
+		}
+		c.Probe("keys_sufficient", fmt.Sprintf("%s pts %s", x.tag(), args), "C11-keys-pts", det)
+		if status == "" {
+			got := x.decrypt(out)
+			c.Emit(fmt.Sprintf("pts %s %s", args, c11I64Vec(v)), Vec(*reqs)+" "+c11I64Vec(got))
+			det = ""
+			if !c11Eq(got, x.refSum(v, 0, n)) { // every rotation by a multiple of 2^62 is the identity
+				det = fmt.Sprintf("offset=2^62 n=5: got=%s want=5*v", c11I64Vec(got))
+			}
+			c.Probe("sum_spec", fmt.Sprintf("%s pts %s", x.tag(), args), "C11-pts-int-overflow", det)
+		} else {
+			c.Emit(fmt.Sprintf("pts %s %s", args, c11I64Vec(v)), status)
+		}
+		c.Count("overflow-args")
 	}
 
 	if !x.hasP {
